@@ -7,6 +7,7 @@
  * whole process life (--whole) or inside the window delimited by the tracee's marker calls
  * write(-1,"VERIF:BEGIN",11) / write(-1,"VERIF:END",9).
  *   --fail K:E      call K is not executed; it returns -E
+ *   --failafter K:E call K IS executed (e.g. close really releases the descriptor, as on Linux); its result is replaced by -E
  *   --retzero K     call K is not executed; it returns 0 (EOF for read)
  *   --short K:N     call K (read/write/sendto/...) has its length argument replaced by N
  *   --kill K:entry  SIGKILL immediately before call K executes;  K:exit immediately after it returned
@@ -78,13 +79,14 @@ static void on_alarm(int s) { (void)s; alarmed = 1; }
 
 #define MAXF 8
 int main(int argc, char **argv) {
-    const char *outp = NULL; int whole = 0; long failk[MAXF], faile[MAXF]; int nfail = 0; long shortk = -1, shortn = 0, killk = -1, retzero = -1; int kill_at_exit = 0;
+    const char *outp = NULL; int whole = 0; long failk[MAXF], faile[MAXF]; int nfail = 0; long shortk = -1, shortn = 0, killk = -1, retzero = -1, fak = -1, fae = 0; int kill_at_exit = 0;
     long calltimeout = 3000, totaltimeout = 20000, maxcalls = 20000, maxrec = 3000; int ai = 1; int runaway = 0;
     for (; ai < argc; ai++) {
         if (!strcmp(argv[ai], "--")) { ai++; break; }
         else if (!strcmp(argv[ai], "-o")) outp = argv[++ai];
         else if (!strcmp(argv[ai], "--whole")) whole = 1;
         else if (!strcmp(argv[ai], "--fail")) { sscanf(argv[++ai], "%ld:%ld", &failk[nfail], &faile[nfail]); nfail++; }
+        else if (!strcmp(argv[ai], "--failafter")) { sscanf(argv[++ai], "%ld:%ld", &fak, &fae); }
         else if (!strcmp(argv[ai], "--retzero")) retzero = atol(argv[++ai]);
         else if (!strcmp(argv[ai], "--short")) sscanf(argv[++ai], "%ld:%ld", &shortk, &shortn);
         else if (!strcmp(argv[ai], "--kill")) { char w[16] = ""; sscanf(argv[++ai], "%ld:%15s", &killk, w); kill_at_exit = !strcmp(w, "exit"); }
@@ -102,7 +104,7 @@ int main(int argc, char **argv) {
     struct sigaction sa; memset(&sa, 0, sizeof sa); sa.sa_handler = on_alarm; sigaction(SIGALRM, &sa, NULL);
     struct timeval t0; gettimeofday(&t0, NULL);
     int in_sys = 0, in_window = whole; long idx = -1; long pend_ret = 0; int pend = 0; int killed_by_us = 0; long blocked_idx = -2; long cur_nr = -1; int counted = 0;
-    int sig_to_deliver = 0; int nsig = 0; int sigs[64];
+    int sig_to_deliver = 0; int nsig = 0; int sigs[64]; int winno = 0;
     fprintf(out, "{\"calls\":[");
     int first = 1; int exited = 0, exit_code = -1, term_sig = 0; int total_to = 0;
     for (;;) {
@@ -127,13 +129,13 @@ int main(int argc, char **argv) {
         struct user_regs_struct regs; ptrace(PTRACE_GETREGS, pid, 0, &regs);
         if (!in_sys) { /* ---- entry */
             in_sys = 1; cur_nr = (long)regs.orig_rax; counted = 0; pend = 0;
-            if (cur_nr == SYS_write && (int)regs.rdi == -1) { char m[16] = ""; peek(pid, regs.rsi, m, 11); if (!strncmp(m, "VERIF:BEGIN", 11)) { in_window = 1; continue; } if (!strncmp(m, "VERIF:END", 9)) { in_window = whole; continue; } }
+            if (cur_nr == SYS_write && (int)regs.rdi == -1) { char m[16] = ""; peek(pid, regs.rsi, m, 11); if (!strncmp(m, "VERIF:BEGIN", 11)) { in_window = 1; winno++; continue; } if (!strncmp(m, "VERIF:END", 9)) { in_window = whole; continue; } }
             if (!in_window) continue;
             idx++; counted = 1;
             if (idx >= maxcalls) { runaway = 1; kill(pid, SIGKILL); waitpid(pid, &st, 0); killed_by_us = 1; counted = 0; break; }
             if (idx >= maxrec) { counted = 0; continue; }   /* numbered but no longer recorded */
             if (!first) fputc(',', out); first = 0;
-            fprintf(out, "\n{\"i\":%ld,\"nr\":%ld,\"name\":\"%s\",\"a\":[%lld,%lld,%lld,%lld]", idx, cur_nr, scname(cur_nr), (long long)regs.rdi, (long long)regs.rsi, (long long)regs.rdx, (long long)regs.r10);
+            fprintf(out, "\n{\"w\":%d,\"i\":%ld,\"nr\":%ld,\"name\":\"%s\",\"a\":[%lld,%lld,%lld,%lld]", winno, idx, cur_nr, scname(cur_nr), (long long)regs.rdi, (long long)regs.rsi, (long long)regs.rdx, (long long)regs.r10);
             int pa = path_arg(cur_nr);
             if (pa >= 0) { char p[512]; peek_str(pid, pa == 0 ? regs.rdi : regs.rsi, p, sizeof p); fprintf(out, ",\"path\":"); jstr(out, p); }
             if (cur_nr == SYS_connect) { unsigned char sa_[128]; memset(sa_, 0, sizeof sa_); size_t l = regs.rdx < sizeof sa_ ? regs.rdx : sizeof sa_ - 1; peek(pid, regs.rsi, sa_, l); if (l > 2) { fprintf(out, ",\"path\":"); jstr(out, (char *)sa_ + 2); } }
@@ -148,6 +150,7 @@ int main(int argc, char **argv) {
             in_sys = 0;
             if (!counted) continue;
             if (pend) { regs.rax = (unsigned long long)pend_ret; ptrace(PTRACE_SETREGS, pid, 0, &regs); }
+            if (idx == fak) { regs.rax = (unsigned long long)(-fae); ptrace(PTRACE_SETREGS, pid, 0, &regs); fprintf(out, ",\"result_replaced\":%ld", -fae); }   /* the call was executed; only its result is replaced */
             fprintf(out, ",\"ret\":%lld", (long long)regs.rax);
             if (idx == killk && kill_at_exit) { fprintf(out, ",\"killed\":\"exit\"}"); kill(pid, SIGKILL); waitpid(pid, &st, 0); killed_by_us = 1; counted = 0; break; }
             fputc('}', out); counted = 0;
